@@ -172,6 +172,114 @@ theorem utpm_scalar_add_sub_value (x : NdArray ℝ) (r : ℝ) (D P : ℕ) (s : L
     by_cases h0 : d = 0 <;> simp [h0]
 end
 
+/-! ## operator level: UTPM ∘ ndarray constant (NumPy broadcasting of `c` against the coefficient shape) -/
+section
+open NdArray
+attribute [local instance] inh0
+
+theorem broadcast_DP_11 (D P : ℕ) : broadcastShapes [D, P] [1, 1] = some [D, P] := by
+  unfold broadcastShapes
+  simp only [List.length_cons, List.length_nil, Nat.max_self, Nat.sub_self, List.replicate_zero, List.nil_append,
+    List.zip_cons_cons, List.zip_nil_right, List.mapM_cons, List.mapM_nil]
+  by_cases hD : D = 1 <;> by_cases hP : P = 1 <;> simp [hD, hP]
+
+theorem utBroadcastShape_const (D P : ℕ) (sx sc s : List ℕ) (hs : broadcastShapes sx sc = some s) :
+    utBroadcastShape (D :: P :: sx) (1 :: 1 :: sc) = some (D :: P :: s) := by
+  unfold utBroadcastShape
+  simp only [List.drop_succ_cons, List.drop_zero, hs, List.take_succ_cons, List.take_zero, broadcast_DP_11]
+  rfl
+
+theorem get_constAsUt (c : NdArray ℝ) (j : List ℕ) : (constAsUt c).get (0 :: 0 :: j) = c.get j := by
+  simp [constAsUt, NdArray.get, ravel]
+
+theorem utBidx_const (sc : List ℕ) (d p : ℕ) (idx : List ℕ) :
+    utBidx (1 :: 1 :: sc) (d :: p :: idx) = 0 :: 0 :: bidx sc idx := by
+  simp [utBidx]
+
+/-- element of `x * c` / `x / c` at `(d, p, idx)` -/
+theorem mulConstArr_get (dv : Bool) (x c z : NdArray ℝ) (D P : ℕ) (sx s : List ℕ)
+    (hx : x.shape = D :: P :: sx) (hs : broadcastShapes sx c.shape = some s)
+    (hz : mulConstArr dv x c = some z) (p : ℕ) (idx : List ℕ) (hp : p < P) (h : ValidIdx s idx) (d : ℕ) (hd : d < D) :
+    co (seriesAt z p idx) d =
+      if dv then x.get (d :: p :: bidx sx idx) / c.get (bidx c.shape idx)
+      else x.get (d :: p :: bidx sx idx) * c.get (bidx c.shape idx) := by
+  unfold mulConstArr at hz
+  dsimp only at hz
+  have hb : utBroadcastShape x.shape (constAsUt c).shape = some (D :: P :: s) := by
+    rw [hx]; exact utBroadcastShape_const D P sx c.shape s hs
+  rw [hb] at hz
+  simp only [Option.bind_eq_bind, Option.bind_some, Option.pure_def, Option.some.injEq] at hz
+  subst hz
+  have hv : ValidIdx (D :: P :: s) (d :: p :: idx) := validIdx_cons2 D P s idx d p hd hp h
+  unfold seriesAt
+  have hD : utD (ofFn (D :: P :: s) fun i => if dv then (utBroadcastTo x (D :: P :: s)).get i / (utBroadcastTo (constAsUt c) (D :: P :: s)).get i
+      else (utBroadcastTo x (D :: P :: s)).get i * (utBroadcastTo (constAsUt c) (D :: P :: s)).get i) = D := by
+    simp [utD, ofFn]
+  rw [hD, co_map_range _ _ _ hd, get_ofFn _ _ _ hv, get_utBroadcastTo _ _ _ hv, get_utBroadcastTo _ _ _ hv, hx,
+    utBidx_valid D P sx d p idx hd hp]
+  have : (constAsUt c).shape = 1 :: 1 :: c.shape := rfl
+  rw [this, utBidx_const, get_constAsUt]
+
+/-- `x * c`, `x / c` with an ndarray `c`: result element `(p, idx)` carries the Taylor coefficients of
+`c[idx'] · x[idx''](t)` resp. `x[idx''](t) / c[idx']` at the broadcast positions -/
+theorem utpm_ndarray_mul_div_value (x c z w : NdArray ℝ) (D P : ℕ) (sx s : List ℕ)
+    (hx : x.shape = D :: P :: sx) (hs : broadcastShapes sx c.shape = some s)
+    (hz : mulConstArr false x c = some z) (hw : mulConstArr true x c = some w)
+    (p : ℕ) (idx : List ℕ) (hp : p < P) (h : ValidIdx s idx) (d : ℕ) (hd : d < D) :
+    co (seriesAt z p idx) d
+        = tc (fun t => c.get (bidx c.shape idx) * curve ((List.range D).map fun k => x.get (k :: p :: bidx sx idx)) t) d
+    ∧ co (seriesAt w p idx) d
+        = tc (fun t => (c.get (bidx c.shape idx))⁻¹ * curve ((List.range D).map fun k => x.get (k :: p :: bidx sx idx)) t) d := by
+  rw [mulConstArr_get false x c z D P sx s hx hs hz p idx hp h d hd,
+    mulConstArr_get true x c w D P sx s hx hs hw p idx hp h d hd, tc_const_mul, tc_const_mul, tc_curve,
+    co_map_range _ _ _ hd]
+  constructor
+  · simp; ring
+  · simp [div_eq_mul_inv]; ring
+
+/-- element of `x + c` / `x - c` at `(d, p, idx)`: only order 0 sees the constant -/
+theorem addConstArr_get (sb : Bool) (x c z : NdArray ℝ) (D P : ℕ) (sx s : List ℕ)
+    (hx : x.shape = D :: P :: sx) (hs : broadcastShapes sx c.shape = some s)
+    (hz : addConstArr sb x c = some z) (p : ℕ) (idx : List ℕ) (hp : p < P) (h : ValidIdx s idx) (d : ℕ) (hd : d < D) :
+    co (seriesAt z p idx) d =
+      if d = 0 then (if sb then x.get (d :: p :: bidx sx idx) - c.get (bidx c.shape idx)
+        else x.get (d :: p :: bidx sx idx) + c.get (bidx c.shape idx))
+      else x.get (d :: p :: bidx sx idx) := by
+  unfold addConstArr at hz
+  dsimp only at hz
+  have hb : utBroadcastShape x.shape (constAsUt c).shape = some (D :: P :: s) := by
+    rw [hx]; exact utBroadcastShape_const D P sx c.shape s hs
+  rw [hb] at hz
+  simp only [Option.bind_eq_bind, Option.bind_some, Option.pure_def, Option.some.injEq] at hz
+  subst hz
+  have hv : ValidIdx (D :: P :: s) (d :: p :: idx) := validIdx_cons2 D P s idx d p hd hp h
+  unfold seriesAt
+  rw [show utD (ofFn (D :: P :: s) _) = D by simp [utD, ofFn], co_map_range _ _ _ hd, get_ofFn _ _ _ hv]
+  simp only
+  rw [get_utBroadcastTo _ _ _ hv, get_utBroadcastTo _ _ _ hv, hx, utBidx_valid D P sx d p idx hd hp]
+  have : (constAsUt c).shape = 1 :: 1 :: c.shape := rfl
+  rw [this, utBidx_const, get_constAsUt]
+
+/-- `x + c`, `x - c` with an ndarray `c`: the Taylor coefficients of `x[idx''](t) ± c[idx']` -/
+theorem utpm_ndarray_add_sub_value (x c z w : NdArray ℝ) (D P : ℕ) (sx s : List ℕ)
+    (hx : x.shape = D :: P :: sx) (hs : broadcastShapes sx c.shape = some s)
+    (hz : addConstArr false x c = some z) (hw : addConstArr true x c = some w)
+    (p : ℕ) (idx : List ℕ) (hp : p < P) (h : ValidIdx s idx) (d : ℕ) (hd : d < D) :
+    co (seriesAt z p idx) d
+        = tc (fun t => curve ((List.range D).map fun k => x.get (k :: p :: bidx sx idx)) t + c.get (bidx c.shape idx)) d
+    ∧ co (seriesAt w p idx) d
+        = tc (fun t => curve ((List.range D).map fun k => x.get (k :: p :: bidx sx idx)) t - c.get (bidx c.shape idx)) d := by
+  have e1 : (fun t => curve ((List.range D).map fun k => x.get (k :: p :: bidx sx idx)) t + c.get (bidx c.shape idx))
+      = curve ((List.range D).map fun k => x.get (k :: p :: bidx sx idx)) + fun _ => c.get (bidx c.shape idx) := rfl
+  have e2 : (fun t => curve ((List.range D).map fun k => x.get (k :: p :: bidx sx idx)) t - c.get (bidx c.shape idx))
+      = curve ((List.range D).map fun k => x.get (k :: p :: bidx sx idx)) - fun _ => c.get (bidx c.shape idx) := rfl
+  rw [addConstArr_get false x c z D P sx s hx hs hz p idx hp h d hd,
+    addConstArr_get true x c w D P sx s hx hs hw p idx hp h d hd, e1, e2,
+    tc_add _ _ (smooth0_curve _) contDiffAt_const, tc_sub _ _ (smooth0_curve _) contDiffAt_const, tc_curve, tc_const,
+    co_map_range _ _ _ hd]
+  by_cases h0 : d = 0 <;> simp [h0]
+end
+
 /-! ## dtype calculus (finite table) -/
 
 /-- combining real with complex operands never drops the imaginary part -/
